@@ -86,12 +86,9 @@ def r05_1(ctx):
             ctx.decide('R05.1', f.qual, 'affected rows: %s' % stores, True if ok else (False if bad else None), l, 'Boehm: new coefficient i = (1-a) c[i-1] + a c[i]')
             a = [s for s in l.body if isinstance(s, ast.Assign) and src(s.targets[0]) == 'a']
             if a:
-                t = src(a[0].value).replace(' ', '')
-                ok = t == '(u-knots[i])/(knots[i+p]-knots[i])'
-                ctx.decide('R05.1', f.qual, src(a[0]), ok or None, a[0], 'a_i = (u - t_i)/(t_{i+p} - t_i)')
+                ctx.expect('R05.1', f.qual, a[0].value, '(u - knots[i]) / (knots[i + p] - knots[i])', a[0], 'a_i = (u - t_i)/(t_{i+p} - t_i)', label=src(a[0]))
             ctx.decide('R05.1', f.qual, 'affected rows [%r, %r)' % (lo, hi), lo == K - P_ + 1 and hi == K + 1, l, 'rows k-p+1 .. k for the span index k = findspan(u)')
-    ks = [s for s in fn.body if isinstance(s, ast.Assign) and src(s.targets[0]) == 'k']
-    ctx.decide('R05.1', f.qual, src(ks[0]) if ks else 'k', bool(ks) and src(ks[0].value) == 'kv.findspan(u)', ks[0] if ks else fn)
+    ctx.expect_assign('R05.1', f, 'k', 'kv.findspan(u)', 'k is the span containing the new knot')
 
 
 def r05_2(ctx):
@@ -110,24 +107,26 @@ def r05_2(ctx):
         bad = elt == 'bspline.prolongation(k1,k0).tocsc()'
         ctx.decide('R05.2', q, '%s for %s in %s' % (elt, tgt, it), True if ok else (False if bad else None), g, 'prolongation(coarse, fine) per axis, CSC storage (function_children reads indptr/indices)')
     a, b = sites[H + '.HMesh.add_level'], sites[H + '.HMesh.init_from_kvs']
-    ok = a[2] == 'zip(self.meshes[-2].kvs,self.meshes[-1].kvs)' and b[2] == 'zip(out.meshes[lv].kvs,out.meshes[lv+1].kvs)'
-    ctx.decide('R05.2', H + '.HMesh', 'level pairs: %s | %s' % (a[2], b[2]), ok or None, a[3], 'consecutive levels, coarse first')
+    ctx.expect('R05.2', H + '.HMesh.add_level', a[3].generators[0].iter, 'zip(self.meshes[-2].kvs, self.meshes[-1].kvs)', a[3],
+               'consecutive levels, coarse first', label='level pair of add_level: ' + a[2])
+    ctx.expect('R05.2', H + '.HMesh.init_from_kvs', b[3].generators[0].iter, 'zip(out.meshes[lv].kvs, out.meshes[lv + 1].kvs)', b[3],
+               'consecutive levels, coarse first', label='level pair of init_from_kvs: ' + b[2])
     ctx.decide('R05.2', H + '.HMesh', 'both constructions use the same element expression', a[0] == b[0], a[3])
     al = ctx.prog.func(H + '.HMesh.add_level')
     order = [src(s).replace(' ', '')[:45] for s in al.node.body]
     ok = order and order[0].startswith('self.meshes.append(self.meshes[-1].refine())')
     ctx.decide('R05.2', al.qual, 'mesh appended before the prolongator is built', ok or None, al.node, 'meshes[-2] -> meshes[-1] must be the new pair')
     pr = ctx.prog.func(B + '.prolongation')
-    t = src(pr.node).replace(' ', '')
-    ok = 'g=kv2.greville()' in t and 'C1=collocation(kv1,g).toarray()' in t and 'C2=collocation(kv2,g)' in t and 'P=scipy.sparse.linalg.spsolve(C2,C1)' in t
-    ctx.decide('R05.2', pr.qual, 'P = C2(g)^-1 C1(g) at the fine Greville points g', ok or None, pr.node, 'interpolation of the coarse basis in the fine space')
+    why = 'P = C2(g)^-1 C1(g): interpolation of the coarse basis in the fine space at the fine Greville points'
+    ctx.expect_assign('R05.2', pr, 'g', 'kv2.greville()', why)
+    ctx.expect_assign('R05.2', pr, 'C1', 'collocation(kv1, g).toarray()', why)
+    ctx.expect_assign('R05.2', pr, 'C2', 'collocation(kv2, g)', why)
+    ctx.expect_assign('R05.2', pr, 'P', 'scipy.sparse.linalg.spsolve(C2, C1)', why)
     fc = ctx.prog.func(H + '.HMesh._function_children_1d')
-    t = src(fc.node).replace(' ', '')
-    ok = 'P=self.P[lv][dim]' in t and 'returnP.indices[P.indptr[j]:P.indptr[j+1]]' in t
-    ctx.decide('R05.2', fc.qual, 'children of j = row indices of column j (CSC indptr/indices)', ok or None, fc.node, 'requires the CSC format produced above')
+    ctx.expect_assign('R05.2', fc, 'P', 'self.P[lv][dim]', 'prolongator of (level, axis)')
+    ctx.expect_return('R05.2', fc, 'P.indices[P.indptr[j]:P.indptr[j + 1]]', 'children of j = row indices of column j (CSC indptr/indices)')
     tp = ctx.prog.func(H + '.HSpace.tp_prolongation')
-    t = src(tp.node).replace(' ', '')
-    ctx.decide('R05.2', tp.qual, 'tp_prolongation(lv) = hmesh.P[lv]', 'Ps=self.hmesh.P[lv]' in t or None, tp.node)
+    ctx.expect_assign('R05.2', tp, 'Ps', 'self.hmesh.P[lv]', 'tp_prolongation(lv) maps level lv to lv+1')
 
 
 def r05_3(ctx):
@@ -149,34 +148,48 @@ def r05_3(ctx):
     bad = 'self.hs.grid_eval' in src(r) and 'truncate=self.truncate' not in src(r).replace(' ', '')
     ctx.decide('R05.3', ge.qual, src(r), True if ok else (False if bad else None), r, 'delegates with the truncate flag')
     hge = ctx.prog.func(H + '.HSpace.grid_eval')
-    r = guards.returns_of(hge.node)[-1].value
-    ok = src(r).replace(' ', '') == 'sum((f.grid_eval(gridaxes)forfinself.coeffs_to_levelwise_funcs(coeffs,truncate=truncate)))'
-    ctx.decide('R05.3', hge.qual, src(r), ok or None, r)
+    ctx.expect_return('R05.3', hge, 'sum(f.grid_eval(gridaxes) for f in self.coeffs_to_levelwise_funcs(coeffs, truncate=truncate))',
+                      'sum of the level-wise contributions, truncate flag forwarded')
     cl = ctx.prog.func(H + '.HSpace.coeffs_to_levelwise_funcs')
     conv = [s for s in own_nodes(cl.node) if isinstance(s, ast.Assign) and 'thb_to_hb' in src(s.value)]
     ok = len(conv) == 1 and src(conv[0]).replace(' ', '') == 'coeffs=self.thb_to_hb()@coeffs' and guards.has_literal(guards.path_conditions(conv[0]), 'truncate', True)
     ctx.decide('R05.3', cl.qual, src(conv[0]) if conv else 'THB->HB', ok, conv[0] if conv else cl.node, 'THB coefficients converted exactly once, only when truncate')
-    t = src(cl.node).replace(' ', '')
-    ok = 'bspline.BSplineFunc(self.knotvectors(lv),_reindex(n_tp[lv],IA[lv],uj))' in t and 'u_lv=self.split_coeffs(coeffs)' in t and 'IA=self.active_indices()' in t
-    ctx.decide('R05.3', cl.qual, 'level lv: coefficients scattered to the active TP indices of level lv', ok or None, cl.node)
+    why = 'level lv: the coefficients of level lv are scattered to the active tensor-product indices of level lv'
+    ctx.expect_assign('R05.3', cl, 'u_lv', 'self.split_coeffs(coeffs)', why)
+    ctx.expect_assign('R05.3', cl, 'IA', 'self.active_indices()', why)
+    ctx.expect_assign('R05.3', cl, 'n_tp', 'tuple(self.mesh(k).numbf for k in range(self.numlevels))', why)
+    ctx.expect_call('R05.3', cl, 'bspline.BSplineFunc', 'bspline.BSplineFunc(self.knotvectors(lv), _reindex(n_tp[lv], IA[lv], uj))', why)
+    gen = [g for g in ast.walk(cl.node) if isinstance(g, ast.GeneratorExp) and 'BSplineFunc' in src(g.elt)]
+    if gen:
+        ctx.expect('R05.3', cl.qual, gen[0].generators[0].iter, 'enumerate(u_lv)', gen[0], 'one function per level, in level order', label='levels enumerated: ' + src(gen[0].generators[0].iter))
     init = cls.methods['__init__']
     t = src(init.node).replace(' ', '')
     ok = 'iftruncateisNone:' in t and 'truncate=self.hs.truncate' in t and 'self.truncate=truncate' in t
     ctx.decide('R05.3', init.qual, 'truncate defaults to the space\'s flag', ok or None, init.node)
     for q in (H + '.HSpace.thb_to_hb', H + '.HSpace.hb_to_thb'):
         f = ctx.prog.func(q)
-        t = src(f.node).replace(' ', '')
+        in_loop = lambda s: guards.in_loop(s, f.node) is not None
         if q.endswith('thb_to_hb'):
-            ok = 'T=self.truncate_one_level(0)' in t and 'T=self.truncate_one_level(k)@T' in t
-            why = 'T = T_{L-2} ... T_1 T_0'
+            why = 'T = T_{L-2} ... T_1 T_0: the two transforms compose the same one-level factors in opposite order'
+            ctx.expect_assign('R05.3', f, 'T', 'self.truncate_one_level(0)', why, which=lambda s: not in_loop(s), label='first factor of thb_to_hb')
+            ctx.expect_assign('R05.3', f, 'T', 'self.truncate_one_level(k) @ T', why, which=in_loop, label='further factors of thb_to_hb multiply from the left')
         else:
-            ok = 'T=self.truncate_one_level(0,inverse=True)' in t and 'T=T@self.truncate_one_level(k,inverse=True)' in t
             why = 'inverse in the reverse order: T_0^-1 T_1^-1 ...'
-        ctx.decide('R05.3', q, why, ok or None, f.node, 'the two transforms compose the same one-level factors in opposite order')
+            ctx.expect_assign('R05.3', f, 'T', 'self.truncate_one_level(0, inverse=True)', why, which=lambda s: not in_loop(s), label='first factor of hb_to_thb')
+            ctx.expect_assign('R05.3', f, 'T', 'T @ self.truncate_one_level(k, inverse=True)', why, which=in_loop, label='further factors of hb_to_thb multiply from the right')
+        loops = [l for l in own_nodes(f.node) if isinstance(l, ast.For)]
+        if loops:
+            ctx.expect('R05.3', q, loops[0].iter, 'range(1, self.numlevels - 1)', loops[0], 'one factor per level pair (k, k+1), k = 0 .. L-2', label='levels of %s: %s' % (q.split('.')[-1], src(loops[0].iter)))
     tl = ctx.prog.func(H + '.HSpace.truncate_one_level')
-    rets = [src(r.value).replace(' ', '') for r in guards.returns_of(tl.node)]
-    ok = rets == ['I+A', 'I-A']
-    ctx.decide('R05.3', tl.qual, 'inverse: I + A ; forward: I - A', ok or None, tl.node, 'A is nilpotent of index 2 (maps level <= k to level k+1), so (I-A)^-1 = I+A')
+    rets = [r for r in guards.returns_of(tl.node) if r.value is not None]
+    why = 'A is nilpotent of index 2 (maps level <= k to level k+1), so (I-A)^-1 = I+A'
+    inv = [r for r in rets if guards.has_literal(guards.path_conditions(r), 'inverse', True)]
+    fwd = [r for r in rets if guards.has_literal(guards.path_conditions(r), 'inverse', False)]
+    if len(inv) == 1 and len(fwd) == 1:
+        ctx.expect('R05.3', tl.qual, inv[0].value, 'I + A', inv[0], why, label='inverse one-level truncation: ' + src(inv[0]))
+        ctx.expect('R05.3', tl.qual, fwd[0].value, 'I - A', fwd[0], why, label='forward one-level truncation: ' + src(fwd[0]))
+    else:
+        ctx.undecided('R05.3', tl.qual, 'inverse: I + A ; forward: I - A', tl.node, 'branches on `inverse` not recognised')
 
 
 def r05_4(ctx):
